@@ -269,7 +269,8 @@ fn closing_tx(funding: &OutPoint) -> Transaction {
 
 /// observation normalisation: which check produced the refusal, read off the message text
 fn classify(msg: &str) -> &'static str {
-    let table: [(&str, &str); 22] = [
+    let table: [(&str, &str); 23] = [
+        ("sign_counterparty_commitment panic", "builder"),
         ("less than dust limit", "dust"),
         ("too many HTLCs", "count"),
         ("expiry too", "cltv"),
